@@ -34,7 +34,7 @@ LAYOUTS = [("c{n}", None), ("acme{n}.client1", None), ("acme{n}.apis.client1", N
 STRATEGIES = ["operationId", "clean", "path"]
 
 # trigger classes: feature flag -> open finding they exercise (documents from these never count as clean)
-TRIGGER_CLASSES: list[set[str]] = [{"mutual_ref"}, {"enum_sunder_value"}, {"promoted_name_reuse"}]
+TRIGGER_CLASSES: list[set[str]] = [{"mutual_ref"}, {"enum_sunder_value"}, {"promoted_name_reuse"}, {"stream_with_secondary_2xx"}]
 
 
 def norm_sig(failure: dict) -> str:
@@ -154,7 +154,9 @@ def make_items(ctx: Ctx, count: int, start: int):
         trig: set[str] = set()
         if TRIGGER_CLASSES and rng.random() < 0.12:
             trig = rng.choice(TRIGGER_CLASSES)
-        d = specgen.generate(rng, allow=trig, prof={"opid_shapes": True, "p_stream": 0.0})
+        d = specgen.generate(rng, allow=trig, prof={"opid_shapes": True, "p_stream": 0.5 if "stream_with_secondary_2xx" in trig else 0.12,
+                                                     "p_multi2xx": 0.8 if "stream_with_secondary_2xx" in trig else 0.25,
+                                                     "p_multi_media": 0.1})
         items.append({"doc": d, "layout": rng.randrange(len(LAYOUTS)), "strategy": rng.choice(STRATEGIES),
                       "n": start + k, "trigger": trig})
     return items
